@@ -27,7 +27,7 @@ _T = {
     text='Refinement invariants are asserted on every deblend result; the parent-side merge is executed under every completion order for <=4 tasks (sampled beyond) through an in-process pool with pickle round-trips, and under real spawn pools with injected delays; every schedule must be bit-identical to nproc=1.',
     note='Trusted: numpy, pickle. Orders for >4 tasks sampled; real pools give tens of observed orders; OS-level pool failures not modelled.'),
  'C07': dict(
-    technique='runtime reference-model monitor (per-label definitions in numpy/fsum) + relation monitors (outside-footprint garbage, label renumbering, row reordering, detection-catalogue delegation)',
+    technique='runtime reference-model monitor (per-label definitions in numpy/fsum) + relation monitors (outside-footprint garbage, label renumbering, row reordering, detection-catalogue delegation) + icontract postcondition on the neighbour-mirroring helper',
     text='Every listed SourceCatalog quantity is recomputed per label from its definition on the unmasked finite pixels and compared (exact for integer/bbox/min/max quantities, 1e-10 scaled for sums/moments), and row independence is checked by relations, over hostile segmentation maps.',
     note='Trusted: numpy, astropy WCS. local_background value itself, Kron/windowed quantities are only covered through relations.'),
  'C08': dict(
